@@ -60,6 +60,8 @@ type ResponderInterceptor struct {
 
 	streams   map[uint32]*localStream
 	streamsMu sync.Mutex
+	closed    bool
+	wg        sync.WaitGroup
 }
 
 type localStream struct {
@@ -95,7 +97,7 @@ func (n *ResponderInterceptor) BindRTCPReader(reader interceptor.RTCPReader) int
 				continue
 			}
 
-			go n.resendPackets(nack)
+			n.startResend(nack)
 		}
 
 		return i, attr, err
@@ -118,6 +120,11 @@ func (n *ResponderInterceptor) BindLocalStream(
 		rtpWriter: writer,
 	}
 	n.streamsMu.Lock()
+	if n.closed {
+		n.streamsMu.Unlock()
+
+		return writer
+	}
 	n.streams[info.SSRC] = stream
 	n.streamsMu.Unlock()
 
@@ -156,9 +163,12 @@ func (n *ResponderInterceptor) UnbindLocalStream(info *interceptor.StreamInfo) {
 	}
 }
 
-// Close releases all resources held by the ResponderInterceptor.
+// Close releases all resources held by the ResponderInterceptor. It returns
+// after the retransmissions in progress have finished; no stream is served afterwards.
 func (n *ResponderInterceptor) Close() error {
+	defer n.wg.Wait()
 	n.streamsMu.Lock()
+	n.closed = true
 	streams := n.streams
 	n.streams = map[uint32]*localStream{}
 	n.streamsMu.Unlock()
@@ -170,6 +180,23 @@ func (n *ResponderInterceptor) Close() error {
 	}
 
 	return nil
+}
+
+// startResend answers a NACK on its own goroutine, unless the interceptor is closed.
+func (n *ResponderInterceptor) startResend(nack *rtcp.TransportLayerNack) {
+	n.streamsMu.Lock()
+	if n.closed {
+		n.streamsMu.Unlock()
+
+		return
+	}
+	n.wg.Add(1)
+	n.streamsMu.Unlock()
+
+	go func() {
+		defer n.wg.Done()
+		n.resendPackets(nack)
+	}()
 }
 
 func (n *ResponderInterceptor) resendPackets(nack *rtcp.TransportLayerNack) {
